@@ -33,7 +33,7 @@ CLAIM = {
             "empty value when absent (rewrite_output, rewrite_message, rewrite_canonical, emit_kinds); a bit-or rewriter writes one canonical field holding the field's encoding of value|mask for all ten kinds "
             "(bitor_roundtrip, bitor_field_spec).",
     "note": "Trusted: Coq kernel, translator (wire primitives), extraction+driver, harness; the hand-written rewriter model tied by correspondence on the rewriter read back from the library by reflection; the template compiler "
-            "and the value-level reading (decode of the output) are covered by differential execution only. The theorems speak about the FIRST occurrence of a templated number: where protobuf reads the last occurrence "
+            "and the value-level reading (decode of the output) are covered by differential execution only, where five recorded findings are subtracted by input class: F36 (.dup), F37 (.split), F38 (.repz), F39 (.repmsg), F40 (.mapzero). The theorems speak about the FIRST occurrence of a templated number: where protobuf reads the last occurrence "
             "(BitOr on a repeated singular field) or merges occurrences (split sub-messages) the library deviates from the value-level property; these and three template-compiler deviations (zero elements of repeated "
             "templates, element templates applied on the first input element, empty-key zero-value map entry) are recorded known findings isolated in their own case streams.",
 }
